@@ -60,7 +60,33 @@ JFoo = _mk('JFoo', __name__, cache=JsonCache())         # second cache format
 PFoo = _mk('PFoo', __name__, extra={'post_init': _post_init})
 P2 = _mk('P2', __name__, cache=labtech.cache.PickleCache(pickle_protocol=2))
 
-ALL = (Foo, FooBar, Foo_, Leaf, NoCacheT, JFoo, PFoo, P2)
+
+class SubPickle(labtech.cache.PickleCache):
+    """A cache format derived from PickleCache that keeps the inherited key prefix but stores the
+    result differently (another file, another encoding)."""
+    RESULT_FILENAME = 'data.subpickle'
+
+    def save_result(self, storage, task, result):
+        import pickle
+        with storage.file_handle(task.cache_key, self.RESULT_FILENAME, mode='wb') as f:
+            f.write(b'SUB' + pickle.dumps(result))
+
+    def load_result(self, storage, task):
+        import pickle
+        with storage.file_handle(task.cache_key, self.RESULT_FILENAME, mode='rb') as f:
+            data = f.read()
+        if not data.startswith(b'SUB'):
+            raise ValueError('not a SubPickle entry')
+        return pickle.loads(data[3:])
+
+
+SFoo = _mk('SFoo', __name__, cache=SubPickle())
+
+# module-level types whose names are legal non-ASCII identifiers (every key of such a type must be usable)
+Modèle = _mk('Modèle', __name__, fields=('p', 'q'))
+Эксперимент = _mk('Эксперимент', __name__, fields=('p', 'q'))
+
+ALL = (Foo, FooBar, Foo_, Leaf, NoCacheT, JFoo, PFoo, P2, Modèle, Эксперимент, SFoo)
 
 
 def _shape_payload(kind: str, n: int):
